@@ -52,8 +52,7 @@ _LINE = re.compile(r'^.*:-?\d+:-?\d+:(error|warning|style|performance|portabilit
                    r'([A-Za-z0-9_.-]+):')
 
 FRONTEND_IDS = {'syntaxError', 'unknownMacro', 'internalAstError', 'internalError', 'preprocessorErrorDirective',
-                'unhandledChar', 'cppcheckError', 'noValidConfiguration', 'missingInclude', 'missingIncludeSystem',
-                'invalidCode', 'simplifyUsing', 'simplifyTypedef', 'templateRecursion', 'unknownEvaluationOrder'}
+                'unhandledChar', 'cppcheckError', 'noValidConfiguration', 'invalidCode'}
 
 SMALL_LIBS = ['posix', 'gnu', 'bsd', 'zlib', 'sqlite3', 'openmp', 'lua', 'pcre', 'cppunit', 'googletest', 'avr',
               'libcurl', 'openssl', 'tinyxml2', 'selinux', 'nspr', 'embedded_sql', 'microsoft_sal']
@@ -288,7 +287,12 @@ def make_cases(ctx):
         else:
             s = mutate.progen_seed(rng, size=rng.choice([0.3, 0.5, 0.8]))
         data = s.data[:mutate.MAX_INPUT]
-        if rng.random() < 0.6:
+        r = rng.random()
+        if r < (0.15 if s.origin.startswith('fuzz') else 0.45):
+            text, kinds = mutate.mutate_gentle(rng, data.decode('latin-1'))
+            data = text.encode('latin-1', 'replace')[:mutate.MAX_INPUT]
+            kinds = ['gentle:' + x for x in kinds]
+        elif r < 0.75:
             other = rng.choice(shipped).data.decode('latin-1')
             text, kinds = mutate.mutate_tokens(rng, data.decode('latin-1'), other)
             data = text.encode('latin-1', 'replace')[:mutate.MAX_INPUT]
